@@ -237,8 +237,8 @@ def grid_cases(ctx):
 
 def gen_cases(ctx):
     rng = ctx.rng
-    cases = [gen_case(rng, ctx.widen) for _ in range(ctx.budget(640, 24000))] + \
-        [{"kind": "linear", **gen_linear(rng)} for _ in range(ctx.budget(80, 1200))]
+    cases = [gen_case(rng, ctx.widen) for _ in range(ctx.budget(640, 8000))] + \
+        [{"kind": "linear", **gen_linear(rng)} for _ in range(ctx.budget(80, 800))]
     if ctx.widen:
         cases += grid_cases(ctx)
     return cases
